@@ -244,6 +244,29 @@ def check_c13(rep, tier):
             elif dt > avail + 1500:
                 rep.violation("impl-vs-spec", f"bestmove announced {int(dt)} ms after `{cmd}`", "", replay_ops=["position startpos", cmd])
             e.sync(10)
+        # the budget of a search must not depend on what earlier searches left unused: a timed search that ends early
+        # (one legal move / depth limit / stop) followed by a short timed one
+        early = [(["position fen 1r5k/8/8/8/8/8/8/K7 w - - 0 1", "go movetime 2500"], "only_move"),
+                 (["position startpos", "go depth 1 movetime 2500"], "depth_limit"),
+                 (["position startpos", "go movetime 2500", "stop"], "stopped")]
+        for pre, key in early:
+            for c in pre:
+                e.send(c)
+            lines, ok, eof = e.read_until(lambda l: l.startswith("bestmove"), 10)
+            e.sync(10)
+            e.send("position startpos")
+            t0 = time.time()
+            e.send("go movetime 150")
+            lines, ok, eof = e.read_until(lambda l: l.startswith("bestmove"), 10)
+            dt = (time.time() - t0) * 1000
+            stats["latency_ms_after_" + key] = int(dt)
+            replay = pre + ["position startpos", "go movetime 150"]
+            if not ok:
+                rep.violation("impl-vs-spec", "no bestmove within 10 s for `go movetime 150` after an earlier timed search that ended early", "", replay_ops=replay)
+                e.send("stop")
+            elif dt > 150 + 1500:
+                rep.violation("impl-vs-spec", f"bestmove announced {int(dt)} ms after `go movetime 150` (an earlier timed search had ended early: {key})", "", replay_ops=replay)
+            e.sync(10)
     finally:
         e.close()
     return stats, kinds, [r[2] for r in results[:8]]
@@ -509,7 +532,7 @@ def check_c19(rep, tier):
     # deeper searches, implementation only (the model is too slow there): quiet positions with many near-equal moves,
     # where anything that survives the reset (table, history counters, killers, a sleeping timer) changes the answer
     E2E4 = "rnbqkbnr/pppp1ppp/8/4p3/4P3/8/PPPP1PPP/RNBQKBNR w KQkq - 0 2"
-    deep = [(roots.START, 6), (roots.START, 7), (E2E4, 6), (E2E4, 7), (roots.PERFT[1], 5), (roots.START, 8)]
+    deep = [(roots.START, 6), (roots.START, 7), (E2E4, 6), (E2E4, 7), (roots.PERFT[1], 5), (roots.START, 8), (roots.START, 9), (roots.PERFT[1], 6)]
     if tier == "thorough":
         deep += [(f, 6) for f in roots.ALL[:12]]
     heavy = ["position startpos", "go depth 9", "wait", "position startpos moves e2e4 e7e5", "go depth 7", "wait",
@@ -517,6 +540,19 @@ def check_c19(rep, tier):
     with cf.ThreadPoolExecutor(max_workers=8) as ex:
         dfresh = list(ex.map(lambda j: engine_search(*j), deep))
         dreset = list(ex.map(lambda j: engine_search(j[0], j[1], prelude=heavy), deep))
+    # many resets in a row (a reset implemented by a wrapping generation counter comes back to old entries)
+    counts = (256, 65536) if tier == "quick" else (255, 256, 257, 512, 1024, 65536)
+    for n in counts:
+        for f, d_first, d_then in ((roots.PERFT[1], 5, 3), (roots.START, 6, 4)):
+            pre = ["position fen " + f, "go depth %d" % d_first, "wait"] + ["ucinewgame"] * n
+            a = engine_search(f, d_then)
+            b = engine_search(f, d_then, prelude=pre)
+            stats["runs"] += 2
+            kinds["after-%d-resets" % n] += 1
+            if a is None or b is None or a != b:
+                rep.violation("impl-vs-spec", f"fixed-depth search not reproducible after a search and {n} x ucinewgame, depth {d_then} @ {f}",
+                              f"after resets: {b[-4:] if b else b}\nfresh: {a[-4:] if a else a}",
+                              replay_ops=pre[:4] + [f"… {n} x ucinewgame", f"position fen {f}", f"go depth {d_then}"])
     for (f, d), a, b in zip(deep, dfresh, dreset):
         stats["runs"] += 2
         kinds["deep-fresh"] += 1
